@@ -1,15 +1,20 @@
 """C24 Rate limiter never exceeds its rate (and admits as soon as possible).
 
 Decides from the syntax tree / CFG of hailtop/utils/rate_limiter.py (nothing is run):
-  R1 admission  `self._items.append(now)` is reached only through a test edge taken exactly when len(self._items) < self._count
-                (table over {<,==,>}), atomically (no await in between); every return of __aenter__ passes the append
-  R2 timestamp  the recorded time is `now`, read from the clock with no suspension point between the read and the append
-                (a stale timestamp leaves the window early and lets more than `count` entries in)
+  R1 admission  EVERY statement that records an entry (`self._items.append(x)`, in any method) is reached only through a test edge taken
+                exactly when len(self._items) < self._count (table over {<,==,>}), atomically (no await in between): the deque never
+                holds more than `count` entries of one window.  Every return of __aenter__ passes exactly one such append.
+  R2 timestamp  the recorded value is the clock value (`now = time.time()`), read with no suspension point between the read and the
+                append, and the entry is admitted (return) with no suspension after the append.  A time computed from other entries
+                (`head + window`, a reservation, a "slot free at") is not the admission time: a stale or future timestamp leaves the
+                window early / lets several waiters share one instant, and more than `count` entries fall into one window.
+                All appends use the same clock.
   R3 eviction   between the clock read and the admission test the loop pops from the *left* while the deque is non-empty and
                 head <= now - window (linear form head - now + window <= 0, non-strict: an entry exactly one window old is outside
-                the half-open window); the deque is only appended on the right / read at [0] / popleft'ed
+                the half-open window), measured with the clock the entries were recorded with; the deque is only appended on the
+                right / read at [0] / popleft'ed, and popleft only happens as the body of that loop
   R4 waiting    the only suspension is `asyncio.sleep(head - (now - window))` (linear form head - now + window: the time until the
-                head leaves the window) and after it the clock is re-read before anything is admitted
+                head leaves the window), reached only by refused entries, and after it the clock is re-read before anything is admitted
   R5 parameters `_count` / `_window_seconds` come from RateLimit.count / .window_seconds and are never reassigned
 Does not decide: clock behaviour (monotonicity of time.time), fairness among waiters.
 """
@@ -17,7 +22,7 @@ from __future__ import annotations
 
 import ast
 from fractions import Fraction
-from typing import Dict, List, Optional
+from typing import Dict, List, Optional, Set, Tuple
 
 from engines import asyncfacts as af
 from engines import inline
@@ -26,12 +31,13 @@ from engines.common import AnalysisError, Ctx
 
 META = dict(
     category='other',
-    text='Structural necessary conditions of the sliding-window invariant decided on the CFG of RateLimiter.__aenter__: guard dominance of the '
-         'admission with await-atomicity, exhaustive table of the admission test over the order relation, linear-form comparison of the eviction '
-         'condition and of the sleep amount with the half-open window semantics, closed set of deque operations.  The window invariant itself '
-         '(at most count timestamps in (now-window, now]) follows from these by induction over admissions, which is argued, not mechanised.',
+    text='Structural necessary conditions of the sliding-window invariant decided on the CFG of RateLimiter.__aenter__: guard dominance of every '
+         'recording statement with await-atomicity, exhaustive table of the admission test over the order relation, reaching-definition '
+         'classification of the recorded value (clock read vs. computed time), linear-form comparison of the eviction condition and of the '
+         'sleep amount with the half-open window semantics, closed set of deque operations.  The window invariant itself (at most count '
+         'timestamps in (now-window, now]) follows from these by induction over admissions, which is argued, not mechanised.',
     note='Trusted: CPython ast; engines/pyfacts CFG; asyncio switches only at await. Not decided: clock monotonicity, float rounding of the sleep amount.',
-    technique='static analysis: CFG guard dominance + await-atomicity + linear-form normalisation + finite truth table',
+    technique='static analysis: CFG guard dominance + await-atomicity + reaching definitions + linear-form normalisation + finite truth table',
     design_ref='DESIGN.md §3 C24',
 )
 
@@ -41,6 +47,8 @@ ITEMS = 'self._items'
 COUNT = 'self._count'
 WINDOW = 'self._window_seconds'
 CLOCKS = ('time.time', 'time.monotonic')
+ENTER = '__aenter__'
+PURE = ('max', 'min', 'float', 'int', 'abs', 'round')
 
 DEQUE_OK = {'method:append', 'index:0', 'method:popleft', 'truth', 'len'}
 DEQUE_BAD = {'method:appendleft': 'records the newest entry as the oldest', 'method:pop': 'evicts the newest entry instead of the oldest',
@@ -48,36 +56,321 @@ DEQUE_BAD = {'method:appendleft': 'records the newest entry as the oldest', 'met
              'method:rotate': 'breaks the oldest-leftmost order', 'method:remove': 'forgets an entry that may still be inside the window',
              'method:reverse': 'breaks the oldest-leftmost order', 'method:extendleft': 'breaks the oldest-leftmost order'}
 
+WANT = {'head': Fraction(1), 'now': Fraction(-1), 'W': Fraction(1)}
 
-def _want(now: str) -> Dict[str, Fraction]:
-    return {'head': Fraction(1), 'now': Fraction(-1), 'W': Fraction(1)}
+
+# --------------------------------------------------------------------------------------
+# helpers
+# --------------------------------------------------------------------------------------
+
+
+def _absorbed(cls0: ast.ClassDef, il) -> Set[str]:
+    """Helpers whose every call site was expanded into __aenter__ (directly or through another such helper): they have no behaviour of
+    their own beyond what the inlined __aenter__ shows."""
+    inl = {n for n, _ in il.inlined} - {n for n, _, _ in il.skipped}
+    refs: Dict[str, Set[str]] = {}
+    for f in cls0.body:
+        if isinstance(f, (ast.FunctionDef, ast.AsyncFunctionDef)):
+            for x in ast.walk(f):
+                if isinstance(x, ast.Attribute) and isinstance(x.value, ast.Name) and x.value.id == 'self' and x.attr in inl:
+                    refs.setdefault(x.attr, set()).add(f.name)
+    out: Set[str] = set()
+    changed = True
+    while changed:
+        changed = False
+        for h in inl - out:
+            if refs.get(h) and all(r == ENTER or r in out for r in refs[h]):
+                out.add(h)
+                changed = True
+    return out
+
+
+def _clock_call(e: ast.AST) -> Optional[str]:
+    if isinstance(e, ast.Call) and not e.args and not e.keywords:
+        d = pf.dotted(e.func)
+        if d in CLOCKS:
+            return d
+    return None
+
+
+def _clock_names(fn: pf.FuncDef) -> Dict[str, Set[str]]:
+    """locals all of whose definitions are plain clock reads -> the clock functions read"""
+    out: Dict[str, Set[str]] = {}
+    for name, defs in pf.assignments(fn).items():
+        cs = [_clock_call(d) for d in defs]
+        if defs and all(c is not None for c in cs):
+            out[name] = set(cs)  # type: ignore[arg-type]
+    return out
+
+
+def _leaves(fn: pf.FuncDef, e: ast.AST, seen: Tuple[str, ...] = ()) -> Set[str]:
+    """What a time expression is computed from (flow-insensitive through locals): clock:<f> | entry | param | state | const | unknown:<why>."""
+    c = _clock_call(e)
+    if c is not None:
+        return {'clock:' + c}
+    if isinstance(e, ast.Constant):
+        return {'const'}
+    if isinstance(e, ast.Name):
+        if e.id in seen:
+            return set()
+        defs = pf.assignments(fn).get(e.id, [])
+        if not defs:
+            return {f'unknown:free name {e.id}'}
+        out: Set[str] = set()
+        for d in defs:
+            if isinstance(d, ast.expr) and not isinstance(d, (ast.Await, ast.Yield, ast.YieldFrom)):
+                out |= _leaves(fn, d, seen + (e.id,))
+            else:
+                out.add(f'unknown:definition of {e.id}')
+        return out
+    if isinstance(e, ast.Subscript) and pf.nsrc(e.value) == ITEMS:
+        return {'entry'}
+    if isinstance(e, ast.Attribute):
+        s = pf.nsrc(e)
+        if s in (WINDOW, COUNT):
+            return {'param'}
+        if s.startswith('self.') and s.count('.') == 1:
+            return {'state'}
+        return {f'unknown:{s}'}
+    if isinstance(e, ast.BinOp):
+        return _leaves(fn, e.left, seen) | _leaves(fn, e.right, seen)
+    if isinstance(e, ast.UnaryOp):
+        return _leaves(fn, e.operand, seen)
+    if isinstance(e, ast.IfExp):
+        return _leaves(fn, e.body, seen) | _leaves(fn, e.orelse, seen)
+    if isinstance(e, ast.Call) and isinstance(e.func, ast.Name) and e.func.id in PURE and not e.keywords:
+        out = set()
+        for a in e.args:
+            out |= _leaves(fn, a, seen)
+        return out
+    return {f'unknown:{pf.nsrc(e)[:40]}'}
+
+
+def _def_nodes(cfg: pf.CFG, name: str) -> List[pf.Node]:
+    out = []
+    for n in cfg.nodes:
+        a = n.ast
+        if n.kind != 'stmt' or a is None:
+            continue
+        tg: List[ast.AST] = []
+        if isinstance(a, ast.Assign):
+            tg = list(a.targets)
+        elif isinstance(a, (ast.AnnAssign, ast.AugAssign)):
+            tg = [a.target]
+        if any(isinstance(x, ast.Name) and x.id == name for t in tg for x in ast.walk(t)):
+            out.append(n)
+    return out
+
+
+def _alternatives(fn: pf.FuncDef, cfg: pf.CFG, A: pf.Node, arg: ast.AST, depth: int = 3) -> List[ast.AST]:
+    """The expressions whose value can be the appended one: reaching definitions of a local (flow-sensitive at the first level),
+    both arms of a conditional expression."""
+    if isinstance(arg, ast.IfExp):
+        return _alternatives(fn, cfg, A, arg.body, depth) + _alternatives(fn, cfg, A, arg.orelse, depth)
+    if isinstance(arg, ast.Name) and depth > 0:
+        dn = _def_nodes(cfg, arg.id)
+        if not dn:
+            return [arg]
+        out: List[ast.AST] = []
+        for D in dn:
+            reaches = cfg.path_avoiding(D, lambda n: n is A, lambda n: any(n is x for x in dn)) is not None
+            if not reaches:
+                continue
+            a = D.ast
+            v = getattr(a, 'value', None)
+            if isinstance(a, (ast.Assign, ast.AnnAssign)) and v is not None and (isinstance(a, ast.AnnAssign) or all(isinstance(t, ast.Name) for t in a.targets)):
+                if isinstance(v, (ast.Name, ast.IfExp)) and _clock_names(fn).get(getattr(v, 'id', ''), None) is None:
+                    out += _alternatives(fn, cfg, D, v, depth - 1)
+                else:
+                    out.append(v)
+            else:
+                out.append(a)  # opaque definition (tuple unpacking, +=)
+        return out or [arg]
+    return [arg]
+
+
+class Rec:
+    """One recording statement and what was decided about it."""
+
+    def __init__(self, node: pf.Node, call: ast.Call):
+        self.node = node
+        self.call = call
+        self.now: Optional[str] = None
+        self.clock: Optional[str] = None
+        self.guard: Optional[Tuple[pf.Node, str]] = None
+
+
+def _recordings(ctx: Ctx, m: pf.Module, fn: pf.FuncDef, q: str) -> List[Rec]:
+    """R1/R2 for every append in one function."""
+    cfg = pf.cfg(fn)
+    apps = af.stmt_nodes(cfg, lambda n: af.node_is_call(n, f'{ITEMS}.append') is not None or af.node_is_call(n, f'{ITEMS}.appendleft') is not None)
+    recs: List[Rec] = []
+    cnames = _clock_names(fn)
+    many = len(apps) > 1
+    for A in apps:
+        acall = af.node_is_call(A, f'{ITEMS}.append') or af.node_is_call(A, f'{ITEMS}.appendleft')
+        ctx.need(acall is not None and len(acall.args) == 1 and not acall.keywords, f'{q}: append has no single argument')
+        ctx.need(A.kind == 'stmt' and isinstance(A.ast, ast.Expr) and A.ast.value is acall, f'{q}: `{A.text()}` records an entry inside a larger statement (not analysed)')
+        r = Rec(A, acall)  # type: ignore[arg-type]
+        recs.append(r)
+        arg = acall.args[0]  # type: ignore[union-attr]
+        cons = f'{F}::{q}::{pf.nsrc(A.ast)}'
+
+        # ---- R2: what is recorded -------------------------------------------------------
+        alts = _alternatives(fn, cfg, A, arg)
+        computed: List[str] = []
+        offset: List[str] = []
+        unknown: List[str] = []
+        clocks: Set[str] = set()
+        for alt in alts:
+            if not isinstance(alt, ast.expr):
+                unknown.append(f'`{pf.nsrc(alt)}`')
+                continue
+            c = _clock_call(alt)
+            if c is not None:
+                clocks.add(c)
+                continue
+            if isinstance(alt, ast.Name) and alt.id in cnames:
+                clocks |= cnames[alt.id]
+                continue
+            lv = _leaves(fn, alt)
+            unk = sorted(x for x in lv if x.startswith('unknown:'))
+            clk = sorted(x for x in lv if x.startswith('clock:'))
+            if not clk and not unk:
+                computed.append(pf.nsrc(alt))
+                continue
+            if clk and not unk:
+                atoms = {f'{c2}()': 'now' for c2 in CLOCKS}
+                atoms.update({n2: 'now' for n2 in cnames})
+                atoms.update({WINDOW: 'W', f'{ITEMS}[0]': 'head', f'{ITEMS}[-1]': 'last'})
+                lin = af.linear(pf.expand_locals(fn, alt), atoms)
+                if lin is not None and lin != {'now': Fraction(1)}:
+                    offset.append(f'{pf.nsrc(alt)} = {af.lin_str(lin)}')
+                    continue
+                if lin is not None:
+                    clocks |= {x[6:] for x in clk}
+                    continue
+            unknown.append(f'`{pf.nsrc(alt)}` ({", ".join(unk) or "mixes a clock read with other times"})')
+        if computed or offset:
+            what = computed[0] if computed else offset[0]
+            ctx.bad('R2', cons + '::clock',
+                    f'the recorded timestamp `{pf.nsrc(arg)}` can be `{what}`, a time computed from other entries / the window, not the clock value at admission: '
+                    'the deque no longer holds admission times.  A time earlier than the real admission (slot-free time, woken late) leaves the window early; '
+                    'a reservation in the future is shared by every waiter queued behind the same oldest entry (count=1, window=10, five entries at t=0: '
+                    f'admissions 0,10,10,10,10).  Either way more than {COUNT} entries are admitted in one window', m.path, A.lineno)
+        else:
+            ctx.need(not unknown, f'{q}: appended value {unknown[0] if unknown else ""} is neither a clock read nor a recognisably computed time')
+            ctx.need(len(clocks) >= 1, f'{q}: appended value `{pf.nsrc(arg)}` not classified')
+            ctx.check(len(clocks) == 1, 'R2', cons + '::clock', f'`{pf.nsrc(arg)}` is read from different clocks ({sorted(clocks)}): timestamps in the deque are not comparable',
+                      m.path, A.lineno, detail={'clock': sorted(clocks)})
+            if len(clocks) == 1:
+                r.clock = next(iter(clocks))
+            if not isinstance(arg, ast.Name) or arg.id not in cnames:
+                raise AnalysisError(f'{q}: timestamp `{pf.nsrc(arg)}` is a clock read but not through one local defined only by clock reads (idiom not analysed)')
+            r.now = arg.id
+            # freshness: the clock is read on every path to the append, and no suspension lies between the (last) read and the append
+            Ns = [n for n in _def_nodes(cfg, arg.id)]
+            dom = cfg.dominated_by(A, lambda n: any(n is x for x in Ns))
+            stale = [x for x in cfg.nodes if pf.node_has_await(x) and x is not A
+                     and cfg.path_avoiding(x, lambda n: n is A, lambda n: any(n is y for y in Ns)) is not None] if dom else []
+            ctx.check(dom and not stale, 'R2', cons + '::fresh',
+                      (f'`{stale[0].text()}` suspends between the clock read and the append: the entry is recorded with a time older than its admission, leaves the '
+                       f'window early, and more than {COUNT} entries fall into one window') if stale else f'`{arg.id}` is not read on every path to the append',
+                      m.path, A.lineno)
+        # the caller is let in at the recorded time: nothing suspends between recording and returning
+        late = [cfg.nodes[i] for i in sorted(cfg.reachable_from(A)) if cfg.nodes[i] is not A and pf.node_has_await(cfg.nodes[i])]
+        ctx.check(not late, 'R2', cons + '::admitted when recorded',
+                  f'`{late[0].text() if late else ""}` suspends after the entry was recorded and before __aenter__ returns: the entry is really admitted later than its '
+                  f'recorded time, so it leaves the window early and the next entry is let in less than one window after it (more than {COUNT} per window)',
+                  m.path, A.lineno)
+
+        # ---- R1: the admission guard ------------------------------------------------------
+        ev = af.TestEval(f'len({ITEMS})', COUNT, [])
+        problems: List[str] = []
+        undecided: List[str] = []
+        for t in cfg.nodes:
+            if t.kind != 'test' or not af.mentions(t.ast, COUNT):
+                continue
+            for label in ('T', 'F'):
+                if not any(lab == label for _, lab in t.succ):
+                    continue
+                if not af.every_path_uses_edge(cfg, A, t, label) or not af.direct(cfg, t, A, label):
+                    continue
+                try:
+                    rows = ev.rows(t.ast)
+                except AnalysisError as e:
+                    undecided.append(str(e))
+                    continue
+                taken = label == 'T'
+                over = [x for x in rows if x[2] == taken and x[0] != '<']
+                latex = [x for x in rows if x[2] != taken and x[0] == '<']
+                if over:
+                    problems.append(f'`{pf.nsrc(t.ast)}` ({label}-edge) lets `{pf.nsrc(A.ast)}` record an entry when len({ITEMS}) {over[0][0]} {COUNT}: the window then holds '
+                                    f'more than {COUNT} entries (count=1: a second caller inside the window is recorded next to the first)')
+                    continue
+                if latex:
+                    problems.append(f'`{pf.nsrc(t.ast)}` refuses an entry although len({ITEMS}) < {COUNT} (not admitted as soon as possible)')
+                    continue
+                aw = [x for x in af.between(cfg, t, A, label) if pf.node_has_await(x)]
+                if aw:
+                    problems.append(f'`{aw[0].text()}` suspends between the admission test and the append: concurrent entries all pass the test first')
+                    continue
+                grow = [x for x in af.between(cfg, t, A, label) if af.node_is_call(x, f'{ITEMS}.append') is not None]
+                if grow:
+                    problems.append(f'`{grow[0].text()}` already grows the deque between the admission test and `{pf.nsrc(A.ast)}`')
+                    continue
+                r.guard = (t, label)
+        consg = f'{F}::{q}::admission guard' + (f' of `{pf.nsrc(A.ast)}`' if many else '')
+        if r.guard is not None:
+            ctx.ok('R1', consg, {'test': pf.nsrc(r.guard[0].ast), 'edge': r.guard[1]})
+        elif problems:
+            ctx.bad('R1', consg, problems[0], m.path, A.lineno)
+        elif undecided:
+            raise AnalysisError(f'{consg}: guard not recognised: {undecided[0]}')
+        else:
+            ctx.bad('R1', consg, f'`{pf.nsrc(A.ast)}` is not dominated by a test of len({ITEMS}) against {COUNT}: entries are recorded without counting the window',
+                    m.path, A.lineno)
+    # one call records at most one entry
+    if apps:
+        twice = [(a, b) for a in apps for b in apps if af.direct(cfg, a, b)]
+        ctx.check(not twice, 'R1', f'{F}::{q}::single admission',
+                  f'one call of {fn.name} can record more than one entry (`{twice[0][0].text()}` then `{twice[0][1].text()}`)' if twice else '', m.path, apps[0].lineno)
+    return recs
+
+
+# --------------------------------------------------------------------------------------
 
 
 def run(ctx: Ctx) -> None:
-    ctx.explanation = ('Guard dominance and await-atomicity of the admission on the CFG of RateLimiter.__aenter__, truth table of the admission test, '
-                       'linear forms of the eviction condition and sleep amount compared with head - now + window, closed set of deque operations.')
-    ctx.rule('R1', 'append(now) only through an edge taken exactly when len(items) < count, atomically; every return passes the append', 3)
-    ctx.rule('R2', 'the recorded timestamp is the clock value read with no await before the append', 2)
-    ctx.rule('R3', 'eviction pops the left end while non-empty and head <= now - window, between clock read and admission test; deque discipline', 9)
-    ctx.rule('R4', 'the only suspension is sleep(head - (now - window)) and the clock is re-read afterwards', 3)
+    ctx.explanation = ('Guard dominance and await-atomicity of every recording statement on the CFG of RateLimiter.__aenter__, truth table of the admission test, '
+                       'reaching-definition classification of the recorded value, linear forms of the eviction condition and sleep amount compared with '
+                       'head - now + window, closed set of deque operations.')
+    ctx.rule('R1', 'every append only through an edge taken exactly when len(items) < count, atomically; every return passes one append', 3)
+    ctx.rule('R2', 'every recorded timestamp is the clock value read with no await before the append, and nothing suspends between append and return', 3)
+    ctx.rule('R3', 'eviction pops the left end while non-empty and head <= now - window (same clock), between clock read and admission test; deque discipline', 11)
+    ctx.rule('R4', 'the only suspension is sleep(head - (now - window)), only for refused entries, and the clock is re-read afterwards', 3)
     ctx.rule('R5', 'count / window come from the RateLimit and are not reassigned', 4)
     ctx.assume('asyncio runs one coroutine at a time and switches only at await; the clock does not go backwards')
-    m = pf.load(F)
+    m0 = pf.load(F)
     ctx.unit('files')
-    cls = m.cls(CLS)
+    cls0 = m0.cls(CLS)
     # __aenter__ is analysed with its same-class helpers inlined (an extracted `_expire(now)` is seen through)
-    m0 = m
-    m, il = inline.inline_methods(m0, CLS, '__aenter__', exclude=('__init__', '__aexit__'))
+    m, il = inline.inline_methods(m0, CLS, ENTER, exclude=('__init__', '__aexit__'))
     cls = m.cls(CLS)
+    absorbed = _absorbed(cls0, il)
     ctx.unit('helpers_inlined', len(il.inlined))
-    fn = af.method(m, cls, '__aenter__')
+    fn = af.method(m, cls, ENTER)
     ctx.need(isinstance(fn, ast.AsyncFunctionDef), '__aenter__ is not a coroutine')
     cfg = pf.cfg(fn)
-    q = f'{CLS}.__aenter__'
+    q = f'{CLS}.{ENTER}'
     ctx.unit('functions', 3)
 
+    def fname(u_func: str) -> str:
+        return u_func.split('.')[-1]
+
     # ---- deque discipline (R3) ---------------------------------------------------------
-    for u in af.container_uses(m, cls, ITEMS):
+    uses = [u for u in af.container_uses(m, cls, ITEMS) if fname(u.func) not in absorbed]
+    for u in uses:
         cons = f'{F}::{u.func}::{u.detail}'
         line = getattr(u.node, 'lineno', 0)
         if u.kind == 'assign':
@@ -96,157 +389,20 @@ def run(ctx: Ctx) -> None:
         else:
             raise AnalysisError(f'{cons}: unrecognised use of the timestamp deque ({u.kind})')
 
-    # ---- the clock read ----------------------------------------------------------------
-    apps = af.stmt_nodes(cfg, lambda n: af.node_is_call(n, f'{ITEMS}.append') is not None or af.node_is_call(n, f'{ITEMS}.appendleft') is not None)
-    ctx.need(len(apps) == 1, f'{q}: expected one statement recording the entry (`{ITEMS}.append(...)`), found {len(apps)}')
-    A = apps[0]
-    acall = af.node_is_call(A, f'{ITEMS}.append') or af.node_is_call(A, f'{ITEMS}.appendleft')
-    ctx.need(acall is not None and len(acall.args) == 1, f'{q}: append has no single argument')
-    arg = acall.args[0]  # type: ignore[union-attr]
-    cons = f'{F}::{q}::{pf.nsrc(A.ast)}'
-    if not isinstance(arg, ast.Name):
-        ctx.need(isinstance(arg, ast.Call) and pf.dotted(arg.func) in CLOCKS, f'{q}: appended value `{pf.nsrc(arg)}` is neither a local nor a clock read')
-        raise AnalysisError(f'{q}: timestamp read inline at the append (idiom not analysed)')
-    now = arg.id
-    ndefs = pf.assignments(fn).get(now, [])
-    ctx.need(len(ndefs) >= 1 and all(isinstance(d, ast.Call) for d in ndefs), f'{q}: `{now}` is not defined by calls only')
-    for d in ndefs:
-        ctx.check(pf.dotted(d.func) in CLOCKS and not d.args, 'R2', cons + '::clock', f'the recorded timestamp `{now}` is `{pf.nsrc(d)}`, not a clock read',
-                  m.path, A.lineno)
-    Ns = af.stmt_nodes(cfg, lambda n: n.kind == 'stmt' and isinstance(n.ast, ast.Assign) and any(n.ast.value is d for d in ndefs))
-    ctx.need(len(Ns) == len(ndefs), f'{q}: clock read statement not found')
-    dom = cfg.dominated_by(A, lambda n: n in Ns)
-    # a suspension from which the append is reachable without a fresh clock read makes the recorded time stale
-    stale = [x for x in cfg.nodes if pf.node_has_await(x) and x is not A and cfg.path_avoiding(x, lambda n: n is A, lambda n: n in Ns) is not None] if dom else []
-    ctx.check(dom and not stale, 'R2', cons + '::fresh',
-              (f'`{stale[0].text()}` suspends between the clock read and the append: the entry is recorded with a time older than its admission, leaves the '
-               f'window early, and more than {COUNT} entries fall into one window') if stale else f'`{now}` is not read on every path to the append',
-              m.path, A.lineno)
-
-    # ---- R1 admission guard ------------------------------------------------------------
-    ev = af.TestEval(f'len({ITEMS})', COUNT, [])
-    guard = None
-    problems: List[str] = []
-    for t in cfg.nodes:
-        if t.kind != 'test' or not af.mentions(t.ast, COUNT):
-            continue
-        for label in ('T', 'F'):
-            if not any(lab == label for _, lab in t.succ):
-                continue
-            if not af.every_path_uses_edge(cfg, A, t, label) or not af.direct(cfg, t, A, label):
-                continue
-            rows = ev.rows(t.ast)  # AnalysisError if the test has atoms we do not understand
-            taken = label == 'T'
-            over = [r for r in rows if r[2] == taken and r[0] != '<']
-            late = [r for r in rows if r[2] != taken and r[0] == '<']
-            if over:
-                problems.append(f'`{pf.nsrc(t.ast)}` admits an entry when len({ITEMS}) {over[0][0]} {COUNT}: the window then holds more than {COUNT} entries')
-                continue
-            if late:
-                problems.append(f'`{pf.nsrc(t.ast)}` refuses an entry although len({ITEMS}) < {COUNT} (not admitted as soon as possible)')
-                continue
-            aw = [x for x in af.between(cfg, t, A, label) if pf.node_has_await(x)]
-            if aw:
-                problems.append(f'`{aw[0].text()}` suspends between the admission test and the append: concurrent entries all pass the test first')
-                continue
-            guard = (t, label)
-    consg = f'{F}::{q}::admission guard'
-    if guard is not None:
-        ctx.ok('R1', consg, {'test': pf.nsrc(guard[0].ast), 'edge': guard[1]})
-    elif problems:
-        ctx.bad('R1', consg, problems[0], m.path, A.lineno)
-    else:
-        ctx.bad('R1', consg, f'the append is not dominated by a test of len({ITEMS}) against {COUNT}: entries are admitted without counting the window',
-                m.path, A.lineno)
-    # every (reachable) return passes the append
-    p = cfg.path_avoiding(cfg.entry, lambda n: n is cfg.exit, lambda n: n is A)
+    # ---- R1 / R2 for every recording statement of the class -----------------------------
+    recs = _recordings(ctx, m, fn, q)
+    ctx.need(len(recs) >= 1, f'{q}: no statement records the entry (`{ITEMS}.append(...)`)')
+    for st in cls.body:
+        if isinstance(st, (ast.FunctionDef, ast.AsyncFunctionDef)) and st is not fn and st.name not in absorbed:
+            _recordings(ctx, m, st, f'{CLS}.{st.name}')
+    apps = [r.node for r in recs]
+    # every (reachable) return passes an append
+    p = cfg.path_avoiding(cfg.entry, lambda n: n is cfg.exit, lambda n: any(n is a for a in apps))
     ctx.check(p is None, 'R1', f'{F}::{q}::every return records an entry',
               'a path returns from __aenter__ without recording a timestamp: that entry is not counted against the rate'
               + (f' (via `{p[-2].text()}`)' if p and len(p) >= 2 else ''), m.path, fn.lineno)
-    # nothing re-admits: the append is not inside a cycle that avoids the guard
-    ctx.check(not af.direct(cfg, A, A), 'R1', f'{F}::{q}::single admission', 'one call of __aenter__ can record more than one entry', m.path, A.lineno)
 
-    ctx.need(len(Ns) == 1, f'{q}: `{now}` is read from the clock at {len(Ns)} places (R3/R4 position rules are written for one read per iteration)')
-    N = Ns[0]
-    # ---- R3 eviction loop ---------------------------------------------------------------
-    loops = [n for n in pf.walk_shallow(fn) if isinstance(n, ast.While) and af.mentions(n.test, f'{ITEMS}[0]')]
-    consE = f'{F}::{q}::eviction loop'
-    if not loops:
-        pops = [u for u in af.container_uses(m, cls, ITEMS) if u.kind == 'method:popleft']
-        ctx.need(not pops, f'{q}: popleft outside a recognised eviction loop')
-        ctx.bad('R3', consE, 'entries are never evicted: once `count` entries were admitted nobody is admitted again / the sleep amount is computed from a '
-                'stale head', m.path, fn.lineno)
-        af.blocked(ctx, 'R3', 'R3')
-    else:
-        ctx.need(len(loops) == 1, f'{q}: {len(loops)} loops test the head of the deque')
-        lp = loops[0]
-        E = af.test_node(cfg, lp.test)
-        # shape of the test:  nonempty and <compare>
-        conj = lp.test.values if isinstance(lp.test, ast.BoolOp) and isinstance(lp.test.op, ast.And) else [lp.test]
-        cmps = [c for c in conj if isinstance(c, ast.Compare) and af.mentions(c, f'{ITEMS}[0]')]
-        rest = [c for c in conj if c not in cmps]
-        ctx.need(len(cmps) == 1, f'{q}: eviction test `{pf.nsrc(lp.test)}` has no single comparison on the head')
-        ne = af.TestEval('?', '?', [ITEMS])
-        for c in rest:
-            rows = ne.rows(c)
-            ctx.need(all(r[2] == r[1][ITEMS] for r in rows), f'{q}: conjunct `{pf.nsrc(c)}` of the eviction test is not the non-emptiness of the deque')
-        ctx.check(bool(rest), 'R3', consE + '::non-empty first', f'`{pf.nsrc(lp.test)}` reads {ITEMS}[0] without first testing that the deque is non-empty: '
-                  'IndexError once every entry has left the window', m.path, lp.lineno)
-        if rest:
-            ctx.need(conj.index(rest[0]) < conj.index(cmps[0]), f'{q}: the emptiness test does not precede the head comparison')
-        atoms = {f'{ITEMS}[0]': 'head', now: 'now', WINDOW: 'W'}
-        nz = af.compare_leq_zero(cmps[0], atoms)
-        ctx.need(nz is not None, f'{q}: eviction comparison `{pf.nsrc(cmps[0])}` is not linear in head / {now} / {WINDOW}')
-        d, strict = nz  # type: ignore[misc]
-        want = _want(now)
-        okd = d == want
-        ctx.check(okd and not strict, 'R3', consE + f'::condition `{pf.nsrc(cmps[0])}`',
-                  (f'evicts while {af.lin_str(d)} {"<" if strict else "<="} 0, the half-open window requires head - now + W <= 0 '
-                   + ('(an entry exactly one window old is outside the window: with `<` it is kept, the waiter sleeps 0 s and re-tests without ever being admitted at that instant)'
-                      if okd and strict else '(entries are evicted too early -> rate exceeded, or too late -> not admitted when possible)')),
-                  m.path, lp.lineno)
-        body_ok = len(lp.body) == 1 and isinstance(lp.body[0], ast.Expr) and pf.call_name(lp.body[0].value) == f'{ITEMS}.popleft' and not lp.orelse
-        ctx.check(body_ok, 'R3', consE + '::body', f'the eviction loop body is `{"; ".join(pf.nsrc(s) for s in lp.body)}`, not a single `{ITEMS}.popleft()`',
-                  m.path, lp.lineno)
-        # placed between the clock read and the admission test, on every path
-        if guard is not None:
-            T = guard[0]
-            p1 = cfg.dominated_by(E, lambda n: n is N)
-            p2 = af.must_pass(cfg, N, lambda n: n is T, lambda n: n is E) is None
-            stale2 = [x for x in af.between(cfg, E, T) if pf.node_has_await(x) or x is N]
-            ctx.check(p1 and p2 and not stale2, 'R3', consE + '::position',
-                      'the eviction loop is not run, with the current clock value, on every path between the clock read and the admission test: '
-                      'entries that already left the window are still counted (late admission) or the test uses an outdated deque', m.path, lp.lineno)
-        else:
-            af.blocked(ctx, 'R1', 'R3')
-
-    # ---- R4 the sleep -------------------------------------------------------------------
-    aws = af.stmt_nodes(cfg, pf.node_has_await)
-    consS = f'{F}::{q}::sleep'
-    if not aws:
-        ctx.bad('R4', consS, 'a refused entry never suspends: __aenter__ spins on the clock and blocks the event loop', m.path, fn.lineno)
-        af.blocked(ctx, 'R4', 'R4')
-    for S in aws:
-        calls = [a for a in ast.walk(S.ast) if isinstance(a, ast.Await)]
-        ctx.need(len(calls) == 1 and S.kind == 'stmt' and isinstance(S.ast, ast.Expr), f'{q}: unrecognised suspension `{S.text()}`')
-        c = calls[0].value
-        ctx.need(isinstance(c, ast.Call) and pf.dotted(c.func) == 'asyncio.sleep' and len(c.args) == 1 and not c.keywords,
-                 f'{q}: suspension `{S.text()}` is not asyncio.sleep(x)')
-        amount = pf.resolve_expr(fn, c.args[0])  # type: ignore[union-attr]
-        lin = af.linear(amount, {f'{ITEMS}[0]': 'head', now: 'now', WINDOW: 'W'})
-        ctx.need(lin is not None, f'{q}: sleep amount `{pf.nsrc(amount)}` is not linear in head / {now} / {WINDOW}')
-        ctx.check(lin == _want(now), 'R4', consS + f'::amount `{pf.nsrc(amount)}`',
-                  f'sleeps {af.lin_str(lin)} seconds; the time until the oldest entry leaves the window is head - now + W '  # type: ignore[arg-type]
-                  '(longer: not admitted as soon as possible; shorter: busy re-testing)', m.path, S.lineno)
-        # reached only when refused, and the clock is re-read before any admission
-        if guard is not None:
-            T, lab = guard
-            other = 'F' if lab == 'T' else 'T'
-            ctx.check(af.every_path_uses_edge(cfg, S, T, other), 'R4', consS + '::only when refused', 'the sleep is also executed by admitted entries',
-                      m.path, S.lineno)
-        back = af.must_pass(cfg, S, lambda n: n is A or n is cfg.exit, lambda n: n is N)
-        ctx.check(back is None, 'R4', consS + '::re-evaluates', 'after sleeping an entry is admitted / returns without re-reading the clock and re-counting the window',
-                  m.path, S.lineno)
+    _window(ctx, m, cls, fn, cfg, q, recs, uses)
 
     # ---- R5 parameters ------------------------------------------------------------------
     init = af.method(m, cls, '__init__')
@@ -268,3 +424,152 @@ def run(ctx: Ctx) -> None:
         asg = [s for s in rinit.body if isinstance(s, ast.Assign) and len(s.targets) == 1 and pf.nsrc(s.targets[0]) == f'self.{name}']
         ctx.check(len(asg) == 1 and pf.nsrc(asg[0].value) == name, 'R5', f'{F}::RateLimit.__init__::self.{name}',
                   f'RateLimit.{name} is not the constructor argument `{name}`', m.path, rinit.lineno)
+
+
+def _other_clock(fn: pf.FuncDef, e: ast.AST, clock: Optional[str], now: str) -> Optional[str]:
+    """a clock other than the recording one read (inline or through a clock-defined local) inside expression e"""
+    if clock is None:
+        return None
+    cn = _clock_names(fn)
+    for x in ast.walk(e):
+        c = _clock_call(x)
+        if c is not None and c != clock:
+            return pf.nsrc(x)
+        if isinstance(x, ast.Name) and x.id != now and x.id in cn and cn[x.id] != {clock}:
+            return f'{x.id} = {sorted(cn[x.id])[0]}()'
+    return None
+
+
+def _window(ctx: Ctx, m: pf.Module, cls: ast.ClassDef, fn: pf.FuncDef, cfg: pf.CFG, q: str, recs: List[Rec], uses) -> None:
+    """R3 (eviction loop) and R4 (sleep): both are stated relative to the clock local that is recorded."""
+    nows = sorted({r.now for r in recs if r.now is not None})
+    clocks = sorted({r.clock for r in recs if r.clock is not None})
+    if not nows:
+        af.blocked(ctx, 'R2', 'R3', 'R4')
+        return
+    ctx.need(len(nows) == 1, f'{q}: entries are recorded from different clock locals {nows} (R3/R4 are written for one)')
+    now = nows[0]
+    clock = clocks[0] if len(clocks) == 1 else None
+    Ns = _def_nodes(cfg, now)
+    ctx.need(len(Ns) == 1, f'{q}: `{now}` is read from the clock at {len(Ns)} places (R3/R4 position rules are written for one read per iteration)')
+    N = Ns[0]
+    apps = [r.node for r in recs]
+    guards: List[Tuple[pf.Node, str]] = []
+    for r in recs:
+        if r.guard is not None and not any(r.guard[0] is g[0] and r.guard[1] == g[1] for g in guards):
+            guards.append(r.guard)
+
+    # ---- R3 eviction loop ---------------------------------------------------------------
+    loops = [n for n in pf.walk_shallow(fn) if isinstance(n, ast.While) and af.mentions(n.test, f'{ITEMS}[0]')]
+    consE = f'{F}::{q}::eviction loop'
+    pops = [u for u in uses if u.kind == 'method:popleft']
+    lp: Optional[ast.While] = None
+    if not loops:
+        ctx.need(not pops, f'{q}: popleft outside a recognised eviction loop')
+        ctx.bad('R3', consE, 'entries are never evicted: once `count` entries were admitted nobody is admitted again / the sleep amount is computed from a '
+                'stale head', m.path, fn.lineno)
+        af.blocked(ctx, 'R3', 'R3')
+    else:
+        ctx.need(len(loops) == 1, f'{q}: {len(loops)} loops test the head of the deque')
+        lp = loops[0]
+        E = af.test_node(cfg, lp.test)
+        # shape of the test:  nonempty and <compare>
+        conj = lp.test.values if isinstance(lp.test, ast.BoolOp) and isinstance(lp.test.op, ast.And) else [lp.test]
+        cmps = [c for c in conj if isinstance(c, ast.Compare) and af.mentions(c, f'{ITEMS}[0]')]
+        rest = [c for c in conj if c not in cmps]
+        ctx.need(len(cmps) == 1, f'{q}: eviction test `{pf.nsrc(lp.test)}` has no single comparison on the head')
+        ne = af.TestEval('?', '?', [ITEMS])
+        for c in rest:
+            rows = ne.rows(c)
+            ctx.need(all(r[2] == r[1][ITEMS] for r in rows), f'{q}: conjunct `{pf.nsrc(c)}` of the eviction test is not the non-emptiness of the deque')
+        ctx.check(bool(rest), 'R3', consE + '::non-empty first', f'`{pf.nsrc(lp.test)}` reads {ITEMS}[0] without first testing that the deque is non-empty: '
+                  'IndexError once every entry has left the window', m.path, lp.lineno)
+        if rest:
+            ctx.need(conj.index(rest[0]) < conj.index(cmps[0]), f'{q}: the emptiness test does not precede the head comparison')
+        cmp_x = pf.expand_locals(fn, cmps[0]) if not af.mentions(cmps[0], now) else cmps[0]
+        oc = _other_clock(fn, cmps[0], clock, now) or _other_clock(fn, cmp_x, clock, now)
+        if oc is not None:
+            ctx.bad('R3', consE + '::clock', f'the eviction condition `{pf.nsrc(cmps[0])}` measures the window with `{oc}` while the entries are recorded with {clock}(): '
+                    'the two clocks have different epochs, so entries are evicted at once (no limiting) or never (nobody is admitted again)', m.path, lp.lineno)
+            af.blocked(ctx, 'R3', 'R3')
+        else:
+            atoms = {f'{ITEMS}[0]': 'head', now: 'now', WINDOW: 'W'}
+            nz = af.compare_leq_zero(cmps[0], atoms)
+            ctx.need(nz is not None, f'{q}: eviction comparison `{pf.nsrc(cmps[0])}` is not linear in head / {now} / {WINDOW}')
+            d, strict = nz  # type: ignore[misc]
+            okd = d == WANT
+            ctx.check(okd and not strict, 'R3', consE + f'::condition `{pf.nsrc(cmps[0])}`',
+                      (f'evicts while {af.lin_str(d)} {"<" if strict else "<="} 0, the half-open window requires head - now + W <= 0 '
+                       + ('(an entry exactly one window old is outside the window: with `<` it is kept, the waiter sleeps 0 s and re-tests without ever being admitted at that instant)'
+                          if okd and strict else '(entries are evicted too early -> rate exceeded, or too late -> not admitted when possible)')),
+                      m.path, lp.lineno)
+        body_ok = len(lp.body) == 1 and isinstance(lp.body[0], ast.Expr) and pf.call_name(lp.body[0].value) == f'{ITEMS}.popleft' and not lp.orelse
+        ctx.check(body_ok, 'R3', consE + '::body', f'the eviction loop body is `{"; ".join(pf.nsrc(s) for s in lp.body)}`, not a single `{ITEMS}.popleft()`',
+                  m.path, lp.lineno)
+        # placed between the clock read and the admission test, on every path
+        if guards:
+            for T, _ in guards:
+                p1 = cfg.dominated_by(E, lambda n: n is N)
+                p2 = af.must_pass(cfg, N, lambda n, T=T: n is T, lambda n: n is E) is None
+                stale2 = [x for x in af.between(cfg, E, T) if pf.node_has_await(x) or x is N]
+                ctx.check(p1 and p2 and not stale2, 'R3', consE + '::position',
+                          'the eviction loop is not run, with the current clock value, on every path between the clock read and the admission test: '
+                          'entries that already left the window are still counted (late admission) or the test uses an outdated deque', m.path, lp.lineno)
+        else:
+            af.blocked(ctx, 'R1', 'R3')
+    # every popleft is the body of that loop: nothing else may forget an entry
+    in_loop = {id(x) for x in ast.walk(lp)} if lp is not None else set()
+    for u in pops:
+        if id(u.node) in in_loop:
+            continue
+        cons = f'{F}::{u.func}::{u.detail}::only while the head left the window'
+        ufn = m.enclosing_func(u.node)
+        ucfg = pf.cfg(ufn) if ufn is not None else None
+        tested = False
+        if ucfg is not None:
+            for P in ucfg.node_of(u.node):
+                if any(t.kind == 'test' and af.mentions(t.ast, f'{ITEMS}[0]') and af.every_path_uses_edge(ucfg, P, t, 'T') for t in ucfg.nodes):
+                    tested = True
+        ctx.need(not tested, f'{cons}: a second eviction site guarded by a test on the head (not analysed)')
+        ctx.bad('R3', cons, f'`{u.detail}` in {u.func} drops the oldest entry without testing that it is at least one window old: an admission that did happen is '
+                f'forgotten while it is still inside the window and another caller is let in (count=1, window=10: entry at t=0, its slot is handed back at t=1, '
+                f'an arrival at t=2 is admitted: 2 admissions in [0, 10))', m.path, getattr(u.node, 'lineno', 0))
+
+    # ---- R4 the sleep -------------------------------------------------------------------
+    aws = af.stmt_nodes(cfg, pf.node_has_await)
+    consS = f'{F}::{q}::sleep'
+    if not aws:
+        ctx.bad('R4', consS, 'a refused entry never suspends: __aenter__ spins on the clock and blocks the event loop', m.path, fn.lineno)
+        af.blocked(ctx, 'R4', 'R4')
+    for S in aws:
+        calls = [a for a in ast.walk(S.ast) if isinstance(a, ast.Await)]
+        ctx.need(len(calls) == 1 and S.kind == 'stmt' and isinstance(S.ast, ast.Expr), f'{q}: unrecognised suspension `{S.text()}`')
+        c = calls[0].value
+        ctx.need(isinstance(c, ast.Call) and pf.dotted(c.func) == 'asyncio.sleep' and len(c.args) == 1 and not c.keywords,
+                 f'{q}: suspension `{S.text()}` is not asyncio.sleep(x)')
+        amount = pf.resolve_expr(fn, c.args[0])  # type: ignore[union-attr]
+        amount = pf.expand_locals(fn, amount) if not af.mentions(amount, now) else amount
+        oc = _other_clock(fn, amount, clock, now)
+        if oc is not None:
+            ctx.bad('R4', consS + '::clock', f'the sleep amount `{pf.nsrc(c.args[0])}` is computed with `{oc}` while the entries are recorded with {clock}()',  # type: ignore[union-attr]
+                    m.path, S.lineno)
+        else:
+            lin = af.linear(amount, {f'{ITEMS}[0]': 'head', now: 'now', WINDOW: 'W'})
+            if lin is None:
+                amount2 = pf.resolve_expr(fn, c.args[0])  # type: ignore[union-attr]
+                lin = af.linear(amount2, {f'{ITEMS}[0]': 'head', now: 'now', WINDOW: 'W'})
+                amount = amount2
+            ctx.need(lin is not None, f'{q}: sleep amount `{pf.nsrc(amount)}` is not linear in head / {now} / {WINDOW}')
+            ctx.check(lin == WANT, 'R4', consS + f'::amount `{pf.nsrc(amount)}`',
+                      f'sleeps {af.lin_str(lin)} seconds; the time until the oldest entry leaves the window is head - now + W '  # type: ignore[arg-type]
+                      '(longer: not admitted as soon as possible; shorter: busy re-testing)', m.path, S.lineno)
+        # reached only when refused, and the clock is re-read before any admission
+        if guards:
+            def refusing(a: pf.Node, b: pf.Node, lab: str) -> bool:
+                return not any(a is T and lab in ('T', 'F') and lab != gl for T, gl in guards)
+            free = cfg.path_avoiding(cfg.entry, lambda n: n is S, lambda n: False, edge_ok=refusing)
+            ctx.check(free is None, 'R4', consS + '::only when refused', 'the sleep is also executed by entries that were not refused by the admission test',
+                      m.path, S.lineno)
+        back = af.must_pass(cfg, S, lambda n: any(n is a for a in apps) or n is cfg.exit, lambda n: n is N)
+        ctx.check(back is None, 'R4', consS + '::re-evaluates', 'after sleeping an entry is admitted / returns without re-reading the clock and re-counting the window',
+                  m.path, S.lineno)
